@@ -142,7 +142,28 @@ CHECKS = {
             "expected (offset, bytes) calls; the real worker.work is then executed on real files for those cases and must produce "
             "the same calls, so an off-by-one in scanned/lastOffset/accumBuf/tail handling shows as a differing call; the start state for offsets_op tail / reset is established by the real initJobOffset.",
             "Trusted: the transcription is bound to the code only through the replayed cases (small scope: length <= 5/7, two symbols); "
-            "OS file semantics; lz4 path not covered.", "DESIGN.md §6 C06"),
+            "OS file semantics; lz4 only through whole real files (no transcription of the lz4 reader).", "DESIGN.md §6 C06"),
+}
+
+
+# later additions per check (rounds 4-5 of the seeded changes), appended to the technique text
+ADDENDA = {
+    "C01": "; a stage with the REAL split plugin in front of a real Batcher (every shape of the split field) recorded in the monitor's vocabulary",
+    "C02": "; the real file input as judge of its own commit notifications: FileInput.tla histories with several streams, killed and restarted while the saved per-stream offsets differ",
+    "C03": "; further families on the real input: rotation at the instant of a restart (scan vs watch), remove_after expiry, a compressed (.lz4) file killed after the first acknowledged lines, truncated while down, recycled inode, append storms, slow writers",
+    "C04": "; LockOrder.tla (stream.mu / blockedMu nesting, TLC deadlock check) bound by a blocked-streams flow on the real streamer (64 streams, each with a processor in blockGet)",
+    "C05": "; undecodable records also as oversize records cut off by max_event_size",
+    "C06": "; maintenance ticks between read rounds as a stuttering step (M_MaintenanceKeepsTail) with the real maintenanceJob; several files served by one worker (WorkerTails.tla); compressed (.lz4) files from every saved line-end offset, paths containing the letter w, a compressed file being written followed by another job; end to end through the real file plugin in a real pipeline",
+    "C08": "; BatcherProto numbers the uses of batch objects (HandOverOnce; M_HeartbeatOneSection, M_StopLeavesPartial as mechanisms with rejected mutants); an Add queued on the real batcher mutex behind the heartbeat while the open batch has expired; Stop trials with slow sends judged for per-adder commit order and commit-after-send-return",
+    "C09": "; scripted send failures cycle through error values (plain, context deadline, cancelled, unexpected EOF)",
+    "C10": "; in-process Kafka broker (real Start/Stop/Commit, broker-side OffsetCommit judged by KafkaMon), records tracked from the hand-out (Fetched), epoch rewinds, back-pressure, split records; a commit for something that is not a record is a violation record",
+    "C11": "; the compressed size / Content-Length of a gzip request is a case dimension (gzone), real gzip requests with a Content-Length replayed at compression ratios 50..900",
+    "C15": "; plugin instances started from ONE shared config object on different templates (JoinInstances.tla)",
+    "C16": "; key length as a dimension (SpecKey: keys that differ only beyond byte 62)",
+    "C17": "; number and index of masks (MaskSet.tla, up to 70 masks); do_if decided on the event as it arrived (MaskDoIf.tla); match rules stateless across instances (MaskRules.tla)",
+    "C18": "; depth buffers per plugin instance: two-instance TLC model over all interleavings of buffer operations (M_BuffersPerInstance) and N>=4 real instances from one shared Config run concurrently on distinct documents",
+    "C19": "; OutputFileSink.tla (workers write whole batches under one lock, seal-up) and OutputStreamSink.tla (a connection is a byte stream cut at delimiters: FramesAreEvents) bound to the real file and gelf plugins (2 workers behind a barrier; a receiver that stalls mid-frame); pipeline-side stage (recycled event objects, split)",
+    "C20": "; rule lists as sequences (M_FirstRuleWins) and the source selection of Pipeline.In (M_SourceFallsBackToInputId) through IsSpam and Pipeline.In",
 }
 
 NOT_APPLICABLE = {
@@ -173,7 +194,7 @@ def main():
             "engine": "tlc+go-harness",
             "level_claimed": {"category": "model_checking", "text": text, "design_ref": ref},
             "level_note": note,
-            "technique": tech,
+            "technique": tech + ADDENDA.get(pid, ""),
         })
     na = []
     for pid in ALL:
